@@ -19,20 +19,26 @@ from fractions import Fraction as Fr
 from lib.rat import F
 
 ID = "C07"
-QUICK_N = 400
+QUICK_N = 330
 THOROUGH_N = 15000
-QUICK_BUDGET_S = 75
+QUICK_BUDGET_S = 85
 THOROUGH_BUDGET_S = 900
 RULE = ("about 70% of the file cases go through O2JMapSet.read(bytes), the rest through O2JMapSet.read_file on a temporary .ojn (str and "
         "pathlib.Path); claim seq reads 2-3 files 2-5 times in one process through any entry point (same song id, same packages "
         "under another header tempo, a head left open followed by a file starting with a tail on that column, files repeated), "
         "takes the results off the returned objects only after all reads (difficulties interleaved) and lets one O2JMapSetMeta "
-        "instance read every header in turn; each read is judged against the model/specification of its own bytes. "
+        "instance read every header in turn; each read is judged against the model/specification of its own bytes; "
+        "claim sess is a session in one fresh process: 1-3 files under 1-2 paths, read 2-5 times through read_file under different "
+        "spellings of the same path (absolute, Path, /./, /../, relative, symlinks) and read(bytes), every earlier result edited in "
+        "place between the reads (20 editing routes), files rewritten between reads (other/same content, same size with the old "
+        "mtime), every read judged right after the call against the bytes the path held then. "
         "Generated .ojn byte strings: random header (all 23 fields, NULs and non-ASCII bytes in the texts), three "
         "difficulties of 0-40 (thorough: 0-200) packages, slot counts 1-192, note channels 2-8 with hits and long notes "
         "spanning packages and measures, 0-30 tempo events anywhere (position 0, inside one measure, coinciding with notes, "
         "after the last note), autoplay/unknown channels, trailing bytes, shuffled package order, and a small share of "
-        "ill-formed files (truncated, unpaired tails, measure-fraction packages, tempo 0/negative, short header); "
+        "ill-formed files (truncated, unpaired tails, measure-fraction packages, tempo 0/negative, short header); about 14% of the "
+        "files carry tempo floats from the rest of the float32 range as bit patterns (NaN of both signs and several payloads, "
+        "+-inf, the largest floats, subnormals and very small numbers, -0.0) as events and as header tempo; "
         "claims f32/int check the byte decoders on random bit patterns; non-trivial = a difficulty with at least two "
         "tempo events and a note after the second, or a long note crossing a package boundary")
 ASSUMPTIONS = [
@@ -41,9 +47,11 @@ ASSUMPTIONS = [
     "float measure positions fl(fl(i/n)+m) order exactly like the rationals m+i/n for m <= 100000, n <= 2000 (generator domain)",
     "times compared within 2^-40 relative + a forward error bound (k+2)*2^-49*(Mmax+1)*240000/min|bpm| of the double computation",
     "volume/pan are modelled and reported as a tag only: the property does not name them",
-    "tempos are 0 or 1e-3 <= |bpm| <= 1e6 (beyond that, offsets leave the int64 range of the item Series and pandas raises)",
+    "ordinary tempos are 0 or 1e-3 <= |bpm| <= 1e6; the rest of the float32 range (NaN, +-inf, subnormals, the largest and smallest normal numbers, -0.0) is generated as bit patterns: NaN/inf/large anywhere, subnormal/very small ones only in effect over a distance of exactly 0",
+    "a model time at or beyond 2^52 ms in magnitude puts the case outside the domain (tag beyond-2^52ms, not judged): from 2^64 ms on the int64 item Series of O2JHit/O2JHold raise ValueError inside pandas' setitem (find_result_type -> np.iinfo(object)); observed on the real code with a tempo of 1e-20 in effect over one measure",
 ]
-TRUSTED_EXTRA = ["model declines non-finite tempos (inf/NaN floats): outside the generator domain"]
+TRUSTED_EXTRA = ["files with a NaN / +-inf tempo are judged against Model.readFileX (the same reader over every float32; proved to refine "
+                 "Model.readFile wherever that one does not decline: readFileX_refines, and re-evaluated on every case: xrefines)"]
 
 E_BPMS = [50.0, 60.0, 75.0, 100.0, 120.0, 125.0, 128.0, 150.0, 160.0, 200.0, 240.0, 250.0, 300.0, 375.0, 37.5, 62.5, 93.75, 187.5,
           480.0, 600.0]
@@ -74,6 +82,25 @@ def sane_tempo(x):
     return is_f32(x) and (x == 0 or 1e-3 <= abs(x) <= 1e6)
 
 
+def is_bits(x):
+    """a float32 given by its bit pattern: {"bits": u32} (NaN, +-inf, subnormals, -0.0, the largest floats ... are not JSON numbers)"""
+    return isinstance(x, dict) and set(x) == {"bits"} and isinstance(x["bits"], int) and not isinstance(x["bits"], bool) \
+        and 0 <= x["bits"] < 2 ** 32
+
+
+def fval(x):
+    """the Python float of a tempo entry (a float, or a bit pattern)"""
+    return struct.unpack("<f", struct.pack("<I", x["bits"]))[0] if isinstance(x, dict) else x
+
+
+def pack_f(x):
+    return struct.pack("<I", x["bits"]) if isinstance(x, dict) else struct.pack("<f", x)
+
+
+def tempo_entry_ok(x):
+    return is_bits(x) or sane_tempo(x)
+
+
 # ------------------------------------------------------------------------------------------ bytes
 
 def _text(s, n):
@@ -83,7 +110,7 @@ def _text(s, n):
 
 def build_header(h, pkg_counts):
     b = struct.pack("<i", h["song_id"]) + _text(h["signature"], 4) + struct.pack("<f", h["encode_version"])
-    b += struct.pack("<i", h["genre"]) + struct.pack("<f", h["bpm"]) + struct.pack("<4h", *h["level"])
+    b += struct.pack("<i", h["genre"]) + pack_f(h["bpm"]) + struct.pack("<4h", *h["level"])
     b += struct.pack("<3i", *h["event_count"]) + struct.pack("<3i", *h["note_count"]) + struct.pack("<3i", *h["measure_count"])
     b += struct.pack("<3i", *pkg_counts)
     b += struct.pack("<hh", h["old_encode_version"], h["old_song_id"]) + _text(h["old_genre"], 20)
@@ -98,7 +125,7 @@ def build_header(h, pkg_counts):
 def build_pkg(p):
     ch = p["ch"]
     if ch in (0, 1):
-        ev = b"".join(struct.pack("<f", x) for x in p["ev"])
+        ev = b"".join(pack_f(x) for x in p["ev"])
     else:
         ev = b"".join(struct.pack("<hBB", e[0], e[1], e[2]) for e in p["ev"])
     n = p.get("n", len(p["ev"]))
@@ -127,6 +154,118 @@ def gen_bpm(rng, wide=False):
     if r < 0.9 or not wide:
         return f32(round(rng.uniform(30, 400), rng.choice([0, 1, 2, 5])))
     return f32(rng.choice([rng.uniform(5, 30), rng.uniform(400, 5000)]))
+
+
+NAN_BITS = [0x7FC00000, 0xFFC00000, 0x7F800001, 0x7FFFFFFF, 0xFF800001]
+INF_BITS = [0x7F800000, 0xFF800000]
+HUGE_BITS = [0x7F7FFFFF, 0xFF7FFFFF, 0x7F000000, 0x60000000]
+TINY_BITS = [0x00000001, 0x80000001, 0x007FFFFF, 0x807FFFFF, 0x00800000, 0x80800000, 0x00400000, 0x0D000000]
+
+
+def gen_special(rng, kinds=("nan", "inf", "huge")):
+    """a float32 outside the ordinary tempo range, as a bit pattern"""
+    k = rng.choice(kinds)
+    if k == "nan":
+        b = rng.choice(NAN_BITS + [0x7F800000 | rng.randrange(1, 2 ** 23) | (rng.randrange(2) << 31)])
+    elif k == "inf":
+        b = rng.choice(INF_BITS)
+    elif k == "huge":
+        b = rng.choice(HUGE_BITS + [(rng.randrange(2) << 31) | (rng.randrange(200, 255) << 23) | rng.randrange(2 ** 23)])
+    else:   # tiny: subnormal or a very small normal number
+        b = rng.choice(TINY_BITS + [(rng.randrange(2) << 31) | rng.randrange(1, 2 ** 23),
+                                    (rng.randrange(2) << 31) | (rng.randrange(1, 60) << 23) | rng.randrange(2 ** 23)])
+    return dict(bits=b)
+
+
+def add_specials(rng, level, hdr_holder=None):
+    """the whole float32 range as tempo values (class: every value struct.unpack can return, not only ordinary tempos).
+    NaN, +-inf and the largest floats go anywhere.  Subnormal / very small tempos are only put where they are in effect
+    over a zero distance (directly superseded at the same position by the next tempo package of the file, or after
+    everything else): in effect over any positive distance they give times beyond 2^64 ms, where pandas' int64 item
+    Series raises (ASSUMPTIONS)."""
+    meas = sorted({p["m"] for p in level}) or [0]
+    hi = max(meas)
+    for _ in range(rng.choice([1, 1, 2, 3])):
+        q = rng.random()
+        if q < 0.6:
+            n = rng.choice([1, 2, 4, 3])
+            ev = [0.0] * n
+            ev[rng.randrange(n)] = gen_special(rng)
+            if n > 1 and rng.random() < 0.3:
+                ev[rng.randrange(n)] = rng.choice([-0.0, gen_bpm(rng), gen_special(rng)])
+            level.insert(rng.randrange(len(level) + 1), dict(m=rng.choice(meas + [hi + 1, 0]), ch=1, ev=ev))
+        elif q < 0.8:   # tiny, superseded at the same position by the package that follows it in the file
+            m = rng.choice(meas + [hi + 1])
+            n = rng.choice([1, 2, 4])
+            k = rng.randrange(n)
+            a, b = [0.0] * n, [0.0] * n
+            a[k] = gen_special(rng, ("tiny",))
+            b[k] = rng.choice([gen_bpm(rng), gen_bpm(rng), gen_special(rng)])
+            level.append(dict(m=m, ch=1, ev=a))
+            level.append(dict(m=m, ch=1, ev=b))
+        else:           # tiny, after everything else
+            level.append(dict(m=hi + rng.choice([1, 2, 7]), ch=1, ev=[gen_special(rng, ("tiny",))]))
+
+
+def bookify(case):
+    """make a file description by-the-book (in place): empty slots and events of unknown type become four zero bytes,
+    packages of channels other than 1..8 are dropped, the event count is the number of events, no truncation / count
+    overrides - what an encoder working from an abstract chart writes"""
+    case.pop("opts", None)
+    for l in case["levels"]:
+        l[:] = [p for p in l if 1 <= p["ch"] <= 8]
+        for p in l:
+            p.pop("n", None)
+            if p["ch"] != 1:
+                p["ev"] = [e if (e[0] != 0 and e[2] in (0, 2, 3)) else [0, 0, 0] for e in p["ev"]]
+    return case
+
+
+def f32_parts(x):
+    """[sign, exponent, mantissa] of a tempo entry"""
+    u = struct.unpack("<I", pack_f(x))[0]
+    return [u >> 31, (u >> 23) & 255, u & (2 ** 23 - 1)]
+
+
+def abstract(case):
+    """the abstract chart (input of the Lean encoder model `encodeChart`) of a by-the-book file description, or None"""
+    if case.get("opts"):
+        return None
+    h = case["hdr"]
+    try:
+        hdr = {k: h[k] for k in HDR_INTS + HDR_SHORTS + HDR_INT3 + ["level"]}
+        for k in HDR_TEXT:
+            hdr[k] = list(h[k].encode("latin-1"))
+        hdr["encode_version"] = f32_parts(h["encode_version"])
+        hdr["bpm"] = f32_parts(h["bpm"])
+    except (UnicodeEncodeError, KeyError):
+        return None
+    levels = []
+    for l in case["levels"]:
+        al = []
+        for p in l:
+            if "n" in p or len(p["ev"]) >= 2 ** 15:
+                return None
+            if p["ch"] == 1:
+                sl = []
+                for e in p["ev"]:
+                    parts = f32_parts(e)
+                    sl.append(None if parts == [0, 0, 0] else parts)
+                al.append(dict(k="t", m=p["m"], sl=sl))
+            elif 2 <= p["ch"] <= 8:
+                sl = []
+                for e in p["ev"]:
+                    if e == [0, 0, 0]:
+                        sl.append(None)
+                    elif e[0] != 0 and e[2] in (0, 2, 3):
+                        sl.append([e[0], e[2], e[1] // 16, e[1] % 16])
+                    else:
+                        return None
+                al.append(dict(k="n", m=p["m"], c=p["ch"] - 2, sl=sl))
+            else:
+                return None
+        levels.append(al)
+    return dict(hdr=hdr, levels=levels, tail=list(case.get("tail") or []))
 
 
 def gen_text(rng, n):
@@ -272,8 +411,10 @@ def gen(rng, tier, i):
                                                  0x00800000, 0x7F7FFFFF, 0x42F00000, rng.randrange(2 ** 32), rng.randrange(2 ** 32)]))
     if r < 0.06:
         return dict(claim="int", bytes=[rng.choice([0, 255, 128, 127, rng.randrange(256)]) for _ in range(4)])
-    if r < 0.18:
+    if r < 0.15:
         return gen_seq(rng, tier)
+    if r < 0.25:
+        return gen_sess(rng, tier)
     case = gen_file(rng, tier)
     case["via"] = rng.choice(["read", "read", "read", "read_file_str", "read_file_path"])
     return case
@@ -313,11 +454,65 @@ def gen_seq(rng, tier):
     return dict(claim="seq", files=files, steps=steps)
 
 
+EDIT_ROUTES = ["hits_offset_add", "holds_length_mul", "holds_offset_add", "stack_offset_mul", "set_stack_offset_add", "bpms_bpm_set",
+               "bpms_offset_add", "df_iloc", "df_values", "df_assign", "df_at", "column_set", "drop_rows", "sort_reverse",
+               "replace_lists", "objs_dict", "item_setattr", "header_lists", "header_attrs", "maps_list"]
+SPELLINGS = ["abs", "path", "dotted", "updown", "rel", "symlink", "dirlink", "bytes"]
+
+
+def gen_sess(rng, tier):
+    """a session in ONE process: 1-3 files written under 1-2 paths of a private directory; the paths are read two or more
+    times through read_file (the same path spelled in different ways: absolute str, pathlib.Path, with /./ and /../
+    segments, relative to the working directory, through a symlink to the file / to the directory) and read(bytes);
+    between the reads EVERY earlier result is edited in place through the ordinary editing routes, and files are
+    rewritten (other content, the same content, other content of the same size with the old modification time).
+    Every read is judged, right after the call, against the model/specification of the bytes the path held then."""
+    k = rng.choice([1, 2, 2, 3])
+    files = [gen_file(rng, "quick", small=True) for _ in range(k)]
+    for f in files:
+        f.pop("opts", None) if rng.random() < 0.5 else None
+    if k >= 2 and rng.random() < 0.5:
+        # same size, other content: only numbers differ (header tempo / a note's position inside its package)
+        files[1] = dict(files[0], hdr=dict(files[0]["hdr"], bpm=gen_bpm(rng), song_id=files[0]["hdr"]["song_id"]))
+    npaths = rng.choice([1, 1, 2])
+    steps = [dict(op="write", p=0, f=0)]
+    if npaths == 2:
+        steps.append(dict(op="write", p=1, f=rng.randrange(k)))
+    nreads = rng.choice([2, 3, 3, 4, 5])
+    for i in range(nreads):
+        if i > 0:
+            q = rng.random()
+            if q < 0.3:
+                steps.append(dict(op="write", p=rng.randrange(npaths), f=rng.randrange(k), keep_mtime=rng.random() < 0.5))
+        edits = []
+        if i > 0 and rng.random() < 0.9:
+            for _ in range(rng.choice([1, 2, 3, 5])):
+                edits.append([rng.choice(EDIT_ROUTES), rng.choice([1000.0, 2.0, 0.5, -250.0, 1.0, 3.0])])
+        steps.append(dict(op="read", p=rng.randrange(npaths), via=rng.choice(SPELLINGS), edits=edits))
+    return dict(claim="sess", files=files, steps=steps)
+
+
 def gen_file(rng, tier, small=False):
     hdr = gen_header(rng)
     ill = rng.random() < 0.07
     levels = [gen_level(rng, tier, well_formed=not (ill and rng.random() < 0.3), small=small) for _ in range(3)]
     case = dict(claim="read", hdr=hdr, levels=levels, tail=[rng.randrange(256) for _ in range(rng.choice([0, 0, 1, 7, 40]))])
+    if rng.random() < 0.14:
+        for l in levels:
+            if rng.random() < 0.6:
+                add_specials(rng, l)
+        q = rng.random()
+        if q < 0.3:
+            hdr["bpm"] = gen_special(rng)
+        elif q < 0.4:   # a subnormal / very small header tempo, superseded at position 0 in every difficulty that has anything to time
+            hdr["bpm"] = gen_special(rng, ("tiny",))
+            for l in levels:
+                l.insert(0, dict(m=0, ch=1, ev=[gen_bpm(rng)] + [0.0] * rng.choice([0, 1, 3])))
+                for p in l:
+                    if p["m"] < 0:
+                        p["m"] = 0
+    if not ill and rng.random() < 0.35:
+        bookify(case)
     if ill:
         k = rng.randrange(8)
         opts = {}
@@ -419,7 +614,43 @@ def corpus():
                                                                   dict(f=1, via="read_file_str")]))
     # the same file twice, then an ill-formed one, then the first again
     c.append(dict(claim="seq", files=[two, dict(two, opts=dict(cut=310))], steps=[dict(f=0), dict(f=0), dict(f=1), dict(f=0, levels=[1, 2, 0])]))
+    # ---- the whole float32 range as tempo values (bit patterns): what the reader does on NaN, +-inf, subnormals, -0.0
+    NAN, NNAN, INF, NINF = dict(bits=0x7FC00000), dict(bits=0xFFC00000), dict(bits=0x7F800000), dict(bits=0xFF800000)
+    SUB, NSUB, NZERO, FMAX = dict(bits=1), dict(bits=0x80000001), dict(bits=0x80000000), dict(bits=0x7F7FFFFF)
+    body = [dict(m=0, ch=2, ev=[H, Z, H, Z]), None, dict(m=2, ch=8, ev=[H, H, H]), dict(m=3, ch=1, ev=[240.0]),
+            dict(m=3, ch=3, ev=[HD, Z]), dict(m=4, ch=3, ev=[Z, TL])]
+    for ev in ([0.0, NAN], [NNAN], [0.0, INF], [NINF, 0.0], [FMAX], [NZERO, 60.0], [NZERO]):
+        c.append(dict(claim="read", hdr=_hdr(120.0), levels=[[dict(p) if p else dict(m=1, ch=1, ev=ev) for p in body], [], []], tail=[]))
+    for hb in (NAN, INF, NINF, FMAX):     # as header tempo (with and without tempo events)
+        c.append(dict(claim="read", hdr=_hdr(hb), levels=[[dict(p) if p else dict(m=1, ch=1, ev=[60.0]) for p in body],
+                                                          [dict(m=0, ch=2, ev=[H]), dict(m=1, ch=2, ev=[H])], []], tail=[]))
+    c.append(dict(claim="read", hdr=_hdr(NZERO), levels=[[dict(m=0, ch=2, ev=[H])], [], []], tail=[]))       # -0.0: ZeroDivisionError
+    # subnormal tempo: after everything; superseded at its own position; as header tempo superseded at position 0
+    c.append(dict(claim="read", hdr=_hdr(120.0), levels=[[dict(m=0, ch=2, ev=[H, H]), dict(m=5, ch=1, ev=[0.0, SUB])], [], []], tail=[]))
+    c.append(dict(claim="read", hdr=_hdr(120.0), levels=[[dict(m=0, ch=2, ev=[H, H]), dict(m=1, ch=1, ev=[NSUB]), dict(m=1, ch=1, ev=[90.0]),
+                                                          dict(m=2, ch=2, ev=[H])], [], []], tail=[]))
+    c.append(dict(claim="read", hdr=_hdr(SUB), levels=[[dict(m=0, ch=1, ev=[100.0, 0.0]), dict(m=0, ch=2, ev=[H, H]), dict(m=1, ch=2, ev=[H])],
+                                                       [], []], tail=[]))
+    # NaN before a long note's tail only: head finite, tail and length NaN; an inf tempo between two notes
+    c.append(dict(claim="read", hdr=_hdr(100.0), levels=[[dict(m=0, ch=2, ev=[HD]), dict(m=1, ch=1, ev=[NAN]), dict(m=2, ch=2, ev=[TL]),
+                                                          dict(m=2, ch=1, ev=[INF]), dict(m=3, ch=4, ev=[H, H])], [], []], tail=[],
+                  via="read_file_str"))
+    # sessions: the same path read again after the earlier result was edited in place; other spellings; a rewrite in between
+    c.append(dict(claim="sess", files=[two], steps=[dict(op="write", p=0, f=0), dict(op="read", p=0, via="abs", edits=[]),
+                                                    dict(op="read", p=0, via="abs", edits=[["hits_offset_add", 1000.0]]),
+                                                    dict(op="read", p=0, via="rel", edits=[["holds_length_mul", 2.0], ["stack_offset_mul", 0.5]]),
+                                                    dict(op="read", p=0, via="bytes", edits=[["bpms_bpm_set", 3.0], ["header_lists", 1.0]])]))
+    c.append(dict(claim="sess", files=[two, other], steps=[dict(op="write", p=0, f=0), dict(op="write", p=1, f=1),
+                                                           dict(op="read", p=0, via="path", edits=[]), dict(op="read", p=1, via="symlink", edits=[["maps_list", 1.0]]),
+                                                           dict(op="write", p=0, f=1, keep_mtime=True),
+                                                           dict(op="read", p=0, via="dotted", edits=[["df_values", 2.0], ["header_attrs", 1.0]]),
+                                                           dict(op="read", p=1, via="updown", edits=[["replace_lists", 1.0], ["item_setattr", 5.0]]),
+                                                           dict(op="write", p=0, f=0),
+                                                           dict(op="read", p=0, via="dirlink", edits=[["drop_rows", 1.0], ["df_assign", -1.0]])]))
     c.append(dict(claim="f32", bits=0x42F00000))
+    c.append(dict(claim="f32", bits=0x80000000))
+    c.append(dict(claim="f32", bits=0x807FFFFF))
+    c.append(dict(claim="f32", bits=0xFF800000))
     c.append(dict(claim="f32", bits=0x7FC00000))
     c.append(dict(claim="f32", bits=0x00000001))
     c.append(dict(claim="int", bytes=[0, 0, 0, 128]))
@@ -445,6 +676,26 @@ def valid(case):
                                            and len(set(lv)) == len(lv)):
                     return False
             return True
+        if cl == "sess":
+            files, steps = case["files"], case["steps"]
+            if not files or not steps or len(steps) > 16 or not all(valid_file(f) for f in files):
+                return False
+            written = set()
+            for st in steps:
+                if st["op"] == "write":
+                    if not (st["p"] in (0, 1, 2) and isinstance(st["f"], int) and 0 <= st["f"] < len(files)):
+                        return False
+                    written.add(st["p"])
+                elif st["op"] == "read":
+                    if not (st["p"] in written and st.get("via", "abs") in SPELLINGS):
+                        return False
+                    for e in st.get("edits") or []:
+                        if not (isinstance(e, list) and len(e) == 2 and e[0] in EDIT_ROUTES and isinstance(e[1], (int, float))
+                                and math.isfinite(e[1])):
+                            return False
+                else:
+                    return False
+            return any(st["op"] == "read" for st in steps)
         return case.get("via", "read") in VIAS and valid_file(case)
     except Exception:
         return False
@@ -467,7 +718,7 @@ def valid_file(case):
         for k, n in HDR_TEXT.items():
             if not isinstance(h[k], str) or len(h[k]) > n or any(ord(ch) > 255 for ch in h[k]):
                 return False
-        if not is_f32(h["encode_version"]) or not sane_tempo(h["bpm"]):
+        if not is_f32(h["encode_version"]) or not tempo_entry_ok(h["bpm"]):
             return False
         if len(case["levels"]) != 3:
             return False
@@ -481,7 +732,7 @@ def valid_file(case):
                     return False
                 for e in p["ev"]:
                     if p["ch"] in (0, 1):
-                        if not (sane_tempo(e) if p["ch"] == 1 else is_f32(e)):
+                        if not (tempo_entry_ok(e) if p["ch"] == 1 else (is_f32(e) or is_bits(e))):
                             return False
                     elif not (isinstance(e, list) and len(e) == 3 and all(isinstance(x, int) for x in e)
                               and -2 ** 15 <= e[0] < 2 ** 15 and 0 <= e[1] < 256 and 0 <= e[2] < 256):
@@ -624,10 +875,28 @@ def header_diff(hdr, jh):
     return bad
 
 
+def TV(x):
+    """a time of a model level: exact rational [num, den] -> float; "nan" (extended model) -> NaN"""
+    return float("nan") if x == "nan" else float(F(x))
+
+
+def BV(x):
+    """a tempo value of a model level: rational, or the extended model's {"inf": neg} / "nan" forms"""
+    if x == "nan":
+        return float("nan")
+    if isinstance(x, dict):
+        return -math.inf if x["inf"] else math.inf
+    return float(F(x))
+
+
 def tolerances(jlevel):
     """absolute tolerance for the times of one difficulty: DESIGN §3 (2^-40) plus a forward error bound of the
-    double computation: each of the k+1 segments contributes <= 2 ulp(Mmax) of measure error times 240000/bpm"""
-    bpms = [abs(float(F(b[1]))) for b in jlevel["bpms"] if F(b[1]) != 0]
+    double computation: each of the k+1 segments contributes <= 2 ulp(Mmax) of measure error times 240000/bpm.
+    Tempos that are not ordinary numbers do not enter: an infinite tempo contributes exactly 0, a NaN tempo makes
+    the time NaN (compared as such), and tempos below 1e-3 are only generated in effect over a distance of exactly 0,
+    where the product is exactly 0 (in effect over a positive distance they move the time beyond 2^52: `beyond`)."""
+    bv = [abs(BV(b[1])) for b in jlevel["bpms"]]
+    bpms = [b for b in bv if math.isfinite(b) and b >= 1e-3]
     k = len(jlevel["bpms"])
     pos = [float(F(x[0])) for x in jlevel["hits"]] + [float(F(x[1])) for x in jlevel["holds"]] + [float(F(b[0])) for b in jlevel["bpms"]]
     mmax = max([1.0] + [abs(p) for p in pos]) + 1.0
@@ -635,8 +904,27 @@ def tolerances(jlevel):
     return 2.0 ** -40 + (k + 2) * 2.0 ** -49 * mmax * 240000.0 / bmin
 
 
+def beyond(jlevels):
+    """some time of the model output is at or beyond 2^52 ms in magnitude (142 000 years): doubles are integers there and
+    from 2^64 on pandas' int64 item Series raise inside the item setters - outside the domain (ASSUMPTIONS)"""
+    lim = 2.0 ** 52
+    for jl in jlevels:
+        ts = [TV(x[4]) for x in jl["hits"]] + [TV(x[5]) for x in jl["holds"]] + [TV(b[2]) for b in jl["bpms"]]
+        ts += [TV(x[6]) for x in jl["holds"] if x[6] is not None]
+        if any(abs(t) >= lim for t in ts if not math.isnan(t)):
+            return True
+    return False
+
+
 def near(a, b, atol):
+    if math.isnan(a) or math.isnan(b):
+        return math.isnan(a) and math.isnan(b)
     return abs(a - b) <= atol + 2.0 ** -40 * max(abs(a), abs(b))
+
+
+def same_val(a, b):
+    """tempo values: equal as floats, NaN = NaN"""
+    return (math.isnan(a) and math.isnan(b)) or a == b
 
 
 def match_multiset(impl, ref, same):
@@ -660,12 +948,14 @@ def level_diff(impl, jl):
     """which lists of one difficulty differ between the implementation and a model/spec level (json).
     returns (bad list, volpan_mismatch, maxdev)"""
     atol = tolerances(jl)
-    ref_hits = [(float(F(x[4])), int(x[1]), int(x[2]), int(x[3])) for x in jl["hits"]]
-    ref_holds = [(float(F(x[5])), int(x[2]), float(F(x[6])), int(x[3]), int(x[4])) for x in jl["holds"]]
-    ref_bpms = [(float(F(b[2])), float(F(b[1]))) for b in jl["bpms"]]
+    ref_hits = [(TV(x[4]), int(x[1]), int(x[2]), int(x[3])) for x in jl["hits"]]
+    ref_holds = [(TV(x[5]), int(x[2]), TV(x[6]), int(x[3]), int(x[4])) for x in jl["holds"]]
+    ref_bpms = [(TV(b[2]), BV(b[1])) for b in jl["bpms"]]
 
     def same_hold(a, b):
         # a length is the difference of two times: twice the absolute tolerance, relative part on the larger operand
+        if math.isnan(a[2]) or math.isnan(b[2]):
+            return a[1] == b[1] and near(a[0], b[0], atol) and math.isnan(a[2]) and math.isnan(b[2])
         return (a[1] == b[1] and near(a[0], b[0], atol)
                 and abs(a[2] - b[2]) <= 2 * atol + 2.0 ** -39 * (abs(b[0]) + abs(b[2])))
     bad = []
@@ -673,7 +963,7 @@ def level_diff(impl, jl):
         bad.append("hits")
     if not match_multiset(impl["holds"], ref_holds, same_hold):
         bad.append("holds")
-    if not match_multiset(impl["bpms"], ref_bpms, lambda a, b: a[1] == b[1] and near(a[0], b[0], atol)):
+    if not match_multiset(impl["bpms"], ref_bpms, lambda a, b: same_val(a[1], b[1]) and near(a[0], b[0], atol)):
         bad.append("bpms")
     vp = False
     if not bad:
@@ -681,11 +971,12 @@ def level_diff(impl, jl):
                   and match_multiset(impl["holds"], ref_holds, lambda a, b: (a[1], a[3], a[4]) == (b[1], b[3], b[4]) and near(a[0], b[0], atol)))
     dv = 0.0
     if not bad:
-        for a, b in zip(sorted(impl["hits"]), sorted(ref_hits)):
+        fin = lambda l, i: sorted(x for x in l if not math.isnan(x[i]) and not any(isinstance(y, float) and math.isnan(y) for y in x))
+        for a, b in zip(fin(impl["hits"], 0), fin(ref_hits, 0)):
             dv = max(dv, abs(a[0] - b[0]))
-        for a, b in zip(sorted(impl["bpms"]), sorted(ref_bpms)):
+        for a, b in zip(fin(impl["bpms"], 0), fin(ref_bpms, 0)):
             dv = max(dv, abs(a[0] - b[0]))
-        for a, b in zip(sorted(impl["holds"]), sorted(ref_holds)):
+        for a, b in zip(fin(impl["holds"], 2), fin(ref_holds, 2)):
             dv = max(dv, abs(a[2] - b[2]))
     return bad, vp, dv
 
@@ -709,6 +1000,8 @@ def run(case, drv):
                     detail={} if good else dict(model=j, bytes=case["bytes"]))
     if cl == "seq":
         return run_seq(case, drv)
+    if cl == "sess":
+        return run_sess(case, drv)
     return run_read(case, drv)
 
 
@@ -732,9 +1025,19 @@ def judge(impl, r):
     wf = dom
     # ---- correspondence: implementation vs model
     agree = True
+    if not r.get("xrefines", False):
+        # the extended model (every float32) must be the rational model wherever that one does not decline
+        agree = False
+        detail["xrefines"] = "Model.readFileX differs from Model.readFile on a byte string the latter does not decline"
     if "err" in model and model["err"] == "nonfinite":
-        tags.append("model-declines-nonfinite")
-    elif impl[0] == "err":
+        # a NaN / +-inf tempo: the rational model (the one the theorems speak about) declines, the extended model
+        # `readFileX` (same reader over every float32) is the reference
+        tags.append("nonfinite-tempo")
+        model = r["modelx"]
+    if "ok" in model and beyond(model["ok"]["levels"]):
+        tags.append("beyond-2^52ms")        # outside the domain: not judged
+        return dict(ok=True, agree=agree, dom=False, wf=False, tags=tags, detail=detail, maxdev=0.0)
+    if impl[0] == "err":
         tags.append("impl-raises:" + impl[1])
         agree = "err" in model        # every exception is one class: the property is silent on ill-formed files
         if agree and model["err"] != impl[1]:
@@ -756,6 +1059,7 @@ def judge(impl, r):
                     detail.setdefault("corr_levels", []).append([k, bad])
                 if vp:
                     tags.append("volpan-differs")
+    agree = agree and bool(r.get("xrefines", False))
     # ---- specification on the implementation's output
     ok = True
     if impl[0] == "ok":
@@ -796,7 +1100,7 @@ def file_stats(case):
     """(nontrivial, tempo tag) of one file description"""
     nontrivial = False
     for l in case["levels"]:
-        tempo = sorted(p["m"] for p in l if p["ch"] == 1 and any(e != 0 for e in p["ev"]))
+        tempo = sorted(p["m"] for p in l if p["ch"] == 1 and any(fval(e) != 0 for e in p["ev"]))
         notes_m = [p["m"] for p in l if 2 <= p["ch"] <= 8 and any(e[0] != 0 for e in p["ev"])]
         if len(tempo) >= 2 and notes_m and max(notes_m) > tempo[1]:
             nontrivial = True
@@ -811,7 +1115,7 @@ def file_stats(case):
                             st = True
                         elif e[0] != 0 and e[2] == 3:
                             st = False
-    ntempo = max([sum(1 for p in l if p["ch"] == 1 for e in p["ev"] if e != 0) for l in case["levels"]] + [0])
+    ntempo = max([sum(1 for p in l if p["ch"] == 1 for e in p["ev"] if fval(e) != 0) for l in case["levels"]] + [0])
     return nontrivial, "tempo%d" % min(ntempo, 3)
 
 
@@ -871,6 +1175,19 @@ def run_read_inproc(case, drv):
     impl = run_impl(data, via)
     j = judge(impl, drv.call("c07.run", b=list(data)))
     nt, ttag = file_stats(case)
+    ab = abstract(case)
+    if ab is not None:
+        # the encoder model of the round-trip theorem `read_encode`: its bytes are the bytes both sides just read, and the
+        # abstract chart's own timeline is the specification's set of those bytes
+        e = drv.call("c07.encode", **ab)
+        j["tags"].append("by-the-book")
+        if "ok" not in e or bytes(e["ok"]["bytes"]) != data or not e["ok"]["timeline_eq"]:
+            j["agree"] = False
+            j["detail"]["encoder"] = ("Lean encodeChart differs from the harness serialiser" if "ok" in e and bytes(e["ok"]["bytes"]) != data
+                                      else "aTimeline differs from specSet of the encoded bytes" if "ok" in e else _short(e))
+        elif j["wf"] and not e["ok"]["wf"]:
+            j["agree"] = False
+            j["detail"]["encoder"] = "encoded chart not wellFormed"
     return dict(claim="read", ok=j["ok"], agree=j["agree"], dom=j["dom"], kf=None, tags=j["tags"] + [ttag, "via:" + via],
                 nontrivial=nt and j["wf"], maxdev=j["maxdev"], boundary=False, detail=j["detail"])
 
@@ -933,6 +1250,235 @@ def run_seq_inproc(case, drv):
                 boundary=False, detail=detail)
 
 
+
+
+def apply_edit(ms, route, arg):
+    """one in-place edit of a result of an earlier read, through an ordinary editing route of the library / pandas.
+    Errors of the edit itself (empty lists, read-only views) are of no interest here."""
+    import numpy as np
+    try:
+        with warnings.catch_warnings():
+            warnings.simplefilter("ignore")
+            maps = list(ms.maps)
+            if route == "hits_offset_add":
+                for m in maps:
+                    m.hits.offset += arg
+            elif route == "holds_length_mul":
+                for m in maps:
+                    m.holds.length *= arg
+            elif route == "holds_offset_add":
+                for m in maps:
+                    m.holds.offset += arg
+            elif route == "stack_offset_mul":
+                for m in maps:
+                    st = m.stack()
+                    st.offset *= arg
+            elif route == "set_stack_offset_add":
+                st = ms.stack()
+                st.offset += arg
+            elif route == "bpms_bpm_set":
+                for m in maps:
+                    m.bpms.bpm = arg
+            elif route == "bpms_offset_add":
+                for m in maps:
+                    m.bpms.offset += arg
+            elif route == "df_iloc":
+                for m in maps:
+                    for l in (m.hits, m.holds, m.bpms):
+                        l.df.iloc[:, l.df.columns.get_loc("offset")] = arg
+            elif route == "df_values":
+                for m in maps:
+                    for l in (m.hits, m.holds, m.bpms):
+                        v = l.df["offset"].values
+                        v[:] = np.asarray(arg).astype(v.dtype)
+            elif route == "df_assign":
+                for m in maps:
+                    for l in (m.hits, m.holds, m.bpms):
+                        l.df["offset"] = arg
+            elif route == "df_at":
+                for m in maps:
+                    for l in (m.hits, m.holds, m.bpms):
+                        if len(l.df):
+                            l.df.at[l.df.index[0], "offset"] = arg
+            elif route == "column_set":
+                for m in maps:
+                    m.hits.column = 0
+                    m.holds.column += 1
+            elif route == "drop_rows":
+                for m in maps:
+                    for l in (m.hits, m.holds, m.bpms):
+                        l.df.drop(l.df.index[:1], inplace=True)
+            elif route == "sort_reverse":
+                for m in maps:
+                    for l in (m.hits, m.holds, m.bpms):
+                        l.df.sort_values("offset", ascending=False, inplace=True)
+            elif route == "replace_lists":
+                for m in maps:
+                    m.hits = type(m.hits)([])
+                    m.bpms = type(m.bpms)([])
+            elif route == "objs_dict":
+                for m in maps:
+                    m.objs["holds"] = type(m.holds)([])
+            elif route == "item_setattr":
+                for m in maps:
+                    for l in (m.hits, m.holds, m.bpms):
+                        if len(l.df):
+                            it = l[0]
+                            it.offset = arg
+            elif route == "header_lists":
+                for a in ("level", "package_count", "event_count", "note_count", "measure_count", "duration", "note_offset"):
+                    l = getattr(ms, a)
+                    if l:
+                        l[0] = int(arg) + 99
+                    l.reverse()
+                    l.append(5)
+            elif route == "header_attrs":
+                ms.title = "edited"
+                ms.artist = ""
+                ms.bpm = float(arg)
+                ms.song_id = -5
+                ms.genre = 10
+                ms.old_genre = b"x"
+            elif route == "maps_list":
+                if arg >= 2:
+                    ms.maps.clear()
+                elif len(ms.maps) > 1:
+                    ms.maps.reverse()
+                    ms.maps.pop()
+    except Exception:
+        pass
+
+
+def spell(d, name, via, linkdir):
+    """the path of file `name` in directory `d`, spelled as `via` says (all spellings denote the same file)"""
+    import os
+    from pathlib import Path
+    full = os.path.join(d, name)
+    if via == "path":
+        return Path(full)
+    if via == "dotted":
+        return os.path.join(d, ".", name)
+    if via == "updown":
+        return os.path.join(d, "..", os.path.basename(d), name)
+    if via == "rel":
+        return os.path.relpath(full)
+    if via == "symlink":
+        ln = os.path.join(d, "ln-" + name)
+        if not os.path.islink(ln):
+            os.symlink(full, ln)
+        return ln
+    if via == "dirlink":
+        return Path(os.path.join(linkdir, name))
+    return full
+
+
+def run_sess(case, drv):
+    """always judged in a fresh process: the session itself is the only history"""
+    if _inproc():
+        return run_sess_inproc(case, drv)
+    return fresh(case)
+
+
+def run_sess_inproc(case, drv):
+    """a session of writes, reads and in-place edits of earlier results in one process (see `gen_sess`).  What a read
+    returns must depend on the bytes it is given only: every result is taken off the returned object right after the
+    call and judged against the model/specification of the bytes the path held at that moment; then all earlier
+    results are edited in place before the next read.  Results that were never edited are re-read off their objects at
+    the end: they must still be what they were."""
+    import os
+    import shutil
+    import tempfile
+    from reamber.o2jam.O2JMapSet import O2JMapSet
+    _quiet()
+    files = case["files"]
+    datas = [build(f) for f in files]
+    drvres = {}
+    d = tempfile.mkdtemp(prefix="c07-sess-", dir="/tmp")
+    linkdir = d + "-ln"
+    os.symlink(d, linkdir)
+    held = {}           # path index -> file index whose bytes it holds now
+    results = []        # (step index, file index, mapset or None, snapshot, edited?)
+    ok, agree, dom, maxdev = True, True, True, 0.0
+    tags, detail = [], {}
+    nreads = 0
+    try:
+        for k, st in enumerate(case["steps"]):
+            name = "f%d.ojn" % st["p"]
+            full = os.path.join(d, name)
+            if st["op"] == "write":
+                old = os.stat(full) if os.path.exists(full) else None
+                with open(full, "wb") as f:
+                    f.write(datas[st["f"]])
+                if old is not None and st.get("keep_mtime"):
+                    os.utime(full, ns=(old.st_atime_ns, old.st_mtime_ns))
+                    tags.append("rewrite-keeps-mtime" + ("-and-size" if old.st_size == len(datas[st["f"]]) else ""))
+                if old is not None:
+                    tags.append("rewritten-same" if held.get(st["p"]) == st["f"] else "rewritten-other")
+                held[st["p"]] = st["f"]
+                continue
+            # edits of every earlier result, then the read
+            for e in st.get("edits") or []:
+                for r in results:
+                    if r[2] is not None:
+                        apply_edit(r[2], e[0], e[1])
+                        r[4] = True
+                tags.append("edit:" + e[0]) if ("edit:" + e[0]) not in tags else None
+            i = held[st["p"]]
+            via = st.get("via", "abs")
+            try:
+                with warnings.catch_warnings():
+                    warnings.simplefilter("ignore")
+                    if via == "bytes":
+                        with open(full, "rb") as f:
+                            b = f.read()
+                        obj = ("ok", O2JMapSet.read(b))
+                    else:
+                        obj = ("ok", O2JMapSet.read_file(spell(d, name, via, linkdir)))
+            except Exception as e:
+                obj = ("err", err_class(e), repr(e)[:200])
+            if obj[0] == "ok":
+                try:
+                    hdr, lv = extract(obj[1])
+                    impl = ("ok", hdr, lv)
+                except Exception as e:
+                    impl = ("err", err_class(e), repr(e)[:200])
+            else:
+                impl = obj
+            if i not in drvres:
+                drvres[i] = drv.call("c07.run", b=list(datas[i]))
+            j = judge(impl, drvres[i])
+            nreads += 1
+            if any(r[1] == i for r in results):
+                tags.append("same-bytes-again")
+            results.append([k, i, obj[1] if obj[0] == "ok" else None, impl, False])
+            ok, agree, dom = ok and j["ok"], agree and j["agree"], dom and j["dom"]
+            maxdev = max(maxdev, j["maxdev"])
+            tags += [t for t in j["tags"] if t not in tags]
+            if ("spell:" + via) not in tags:
+                tags.append("spell:" + via)
+            if not (j["ok"] and j["agree"]):
+                detail["step%d(read #%d of path %d = file %d, %s)" % (k, nreads, st["p"], i, via)] = j["detail"]
+        # results never edited must not have changed
+        for r in results:
+            if r[2] is not None and not r[4] and r[3][0] == "ok":
+                try:
+                    hdr, lv = extract(r[2])
+                    now = ("ok", hdr, lv)
+                except Exception as e:
+                    now = ("err", err_class(e), repr(e)[:200])
+                if repr(now) != repr(r[3]):
+                    ok = False
+                    detail["step%d-later" % r[0]] = dict(note="the result of this read changed after later calls although it was never edited",
+                                                         before=_short(r[3]), after=_short(now))
+    finally:
+        try:
+            os.remove(linkdir)
+        except OSError:
+            pass
+        shutil.rmtree(d, ignore_errors=True)
+    tags = sorted(set(tags))
+    return dict(claim="sess", ok=ok, agree=agree, dom=dom, kf=None, tags=tags + ["sess%d" % min(nreads, 5)], nontrivial=nreads >= 2,
+                maxdev=maxdev, boundary=False, detail=detail)
 
 
 def _short(x, n=1800):
